@@ -22,7 +22,7 @@ K = 0o2000
 # how the six bytes between the labels a and b come about: a constant-size statement, a size known later, '.repeat' blocks with a
 # literal and with a later-defined count, an included file, and an included file (the very first statement unless the directive
 # precedes it) that also holds the label a itself, exported
-SIZEFORMS = [False, True, "rep", "repfwd", "repbyte", "inc", "inclabel"]
+SIZEFORMS = [False, True, "rep", "repfwd", "repbyte", "inc", "inclabel", "skiprel", "skiplab"]
 TREE = {"six.mac": "\t.blkb 6\n", "inca.mac": "a:: .blkb 6\n"}
 OFF = {"a": 0, "b": 6, "c": 10}
 PAIRS = [(x, y) for x in "abc" for y in "abc" if x != y]
@@ -70,6 +70,13 @@ def expressions():
             out.append(("%o+%s<q%s-q%s>" % (K, kk, x, y), K + v))
             out.append(("%o+%s<q%s-%s>" % (K, kk, x, y), K + v))
             out.append(("%o+%s<%s-q%s>" % (K, kk, x, y), K + v))
+    # a factor that is a symbol defined at the very end (through another symbol): each product waits for the number only
+    for (x, y) in (("c", "a"), ("b", "a"), ("c", "b")):
+        v = 2 * (OFF[x] - OFF[y])
+        out.append(("%o+kf*%s-kf*%s" % (K, x, y), K + v))
+        out.append(("%o+%s*kf-%s*kf" % (K, x, y), K + v))
+        out.append(("%o+kf*<%s-%s>" % (K, x, y), K + v))
+        out.append(("%o-kf*%s+%s*kf" % (K, x, y), K - v))
     # the classic: K + end - start in several orders, unbracketed
     out += [("c-a+%o" % K, K + 10), ("%o+c-a" % K, K + 10), ("c+%o-a" % K, K + 10), ("0-a+c+%o" % K, K + 10), ("%o+a-b" % K, K - 6), ("%o-a+b" % K, K + 6)]
     seen, res = set(), []
@@ -110,8 +117,12 @@ def make_program(directive, pos, deferred, symform, expr, colon=":", wrap=None):
         d = ".repeat rc1 { .repeat 1 { %s } }" % d
         post_defs.append("rc1 = 1")
     first = {False: "a%s .blkb 6", True: "a%s .blkb n6", "rep": "a%s .repeat 3 { .word 0 }", "repfwd": "a%s .repeat n3 { .word 0 }",
-             "repbyte": "a%s .repeat n6 { .byte 0 }", "inc": "a%s .include \"six.mac\"", "inclabel": "%s.include \"inca.mac\""}[deferred]
+             "repbyte": "a%s .repeat n6 { .byte 0 }", "inc": "a%s .include \"six.mac\"", "inclabel": "%s.include \"inca.mac\"",
+             # a skip relative to '.' / to the label just before it (only a skip when the directive stands first)
+             "skiprel": "a%s .word 0, 0\n. = .+2", "skiplab": "a%s .word 0\n. = a+6"}[deferred]
     stm = [first % (colon if deferred != "inclabel" else ""), "b%s .word 1, 2" % colon, "c%s nop" % colon, ".word a, c"]
+    if "kf" in expr:
+        post_defs += ["kf = nf", "nf = 2"]
     if deferred is True or deferred == "repbyte":
         post_defs.append("n6 = 6")
     if deferred == "repfwd":
@@ -186,6 +197,8 @@ def check(case, r, tier):
             for directive in (".link", ". ="):
                 for pos in ((0, 1, 2, 3) if directive == ".link" else (0,)):
                     for deferred in SIZEFORMS:
+                        if deferred in ("skiprel", "skiplab") and pos != 0:
+                            continue   # before the base is set, '. =' would set it
                         for symform in ("direct", "before", "after"):
                             text = make_program(directive, pos, deferred, symform, expr)
                             fam = "%s-pos%d-%s%s" % ("link" if directive == ".link" else "dot", pos, symform,
@@ -254,6 +267,8 @@ def check(case, r, tier):
             for directive in (".link", ". ="):
                 for pos in ((0, 1, 2, 3) if directive == ".link" else (0,)):
                     for deferred in SIZEFORMS:
+                        if deferred in ("skiprel", "skiplab") and pos != 0:
+                            continue
                         for symform in ("direct", "before", "after"):
                             text = make_program(directive, pos, deferred, symform, expr)
                             judge_fail(r, [("p.mac", text)], text, "self-dependent", "the base depends on itself (%s) and must be refused" % expr)
